@@ -266,7 +266,7 @@ def run(ctx):
     for r in recs:
         v = ver[r['id']]
         if not v['ok']:
-            ctx.violation(v['clause'], {'model': r.get('model', 'ImagePSF'), 'rotated_prf': r.get('rotated_prf', False), 'width_id': r.get('width')},
+            ctx.violation(v['clause'], {'model': r.get('model', 'make_psf_model' if r.get('rel', '').startswith('wrapped') else 'ImagePSF'), 'rotated_prf': r.get('rotated_prf', False), 'width_id': r.get('width')},
                           {'case': r})
         else:
             ctx.traces += 1
